@@ -44,7 +44,7 @@ var scenarios = [][]string{
 		"c new 0 t",
 		"c q msg n0 f t n0=p:p300,g300/40:-:-:-",
 		"c q msg n1 f t n1=x:-:s300/300,g300/20:-:-",
-		"c q msg n2 f t n2=d:-:s3600/60,g3600/-5:-:-",
+		"c q msg n2 f t n2=d:-:s3600/60,G3600/-5:-:-",
 		"c adv 4",
 		"c q wire n2 f t -",
 		"c adv 1",
@@ -102,9 +102,9 @@ var scenarios = [][]string{
 		"c new 0 f",
 		"c cutrec 1 s300/2,g300/300/4000,p300,g300/300/4000 -",
 		"c q msg u1 f t -",
-		"c q wire u1 f f -",
+		"c q lwire u1 f f -",
 		"c adv 1",
-		"c q wire u1 f t -",
+		"c q lwire u1 f t -",
 		"c adv 1",
 		"c q msg u1 f t -",
 		"c cutrec 2 s300/300,g300/300/4000,p300,g300/300/4000 3",
@@ -288,6 +288,14 @@ var smallTTL = []int64{1, 3, 5, 6, 7, 10, 12, 30, 60, 120, 300, 3600, 86399, 864
 var dPool = []int64{-1000000, -3600, -1, 0, 1, 4, 5, 6, 7, 30, 299, 300, 301, 3599, 86399, 86400, 86401, 100000000, 2000000000}
 var leasePool = []int64{0, 1, 3, 4, 5, 6, 10, 60, 250, 4000, 90000}
 
+// sigKind: a third of the generated RRSIGs carry an inverted validity window (`G`).
+func sigKind(r *vlib.R) byte {
+	if r.Chance(1, 3) {
+		return 'G'
+	}
+	return 'g'
+}
+
 func item(kind byte, ttl int64, a ...int64) string {
 	s := fmt.Sprintf("%c%d", kind, ttl)
 	for _, v := range a {
@@ -316,7 +324,7 @@ func genCalcSection(r *vlib.R, maxN int, soa bool, opt bool) []string {
 		case k < 7 && soa:
 			out = append(out, item('s', t, vlib.Pick(r, ttlPool)))
 		case k < 9:
-			out = append(out, item('g', t, vlib.Pick(r, dPool)))
+			out = append(out, item(sigKind(r), t, vlib.Pick(r, dPool)))
 		default:
 			if opt {
 				out = append(out, "o")
@@ -351,7 +359,11 @@ func genTTLCase(r *vlib.R, emit func(string)) int {
 			default:
 				tue = vlib.Pick(r, dPool)*sec + int64(r.Intn(2000000000)) - 1000000000
 			}
-			emit(fmt.Sprintf("ttl sig %d %d", ttl, tue))
+			if r.Chance(1, 3) {
+				emit(fmt.Sprintf("ttl sig %d %d inv", ttl, tue))
+			} else {
+				emit(fmt.Sprintf("ttl sig %d %d", ttl, tue))
+			}
 		case k < 9:
 			mn := vlib.Pick(r, []int64{0, 5 * sec, 30 * sec})
 			mx := vlib.Pick(r, []int64{5 * sec, 3600 * sec, 86400 * sec})
@@ -401,7 +413,7 @@ func genTTLCase(r *vlib.R, emit func(string)) int {
 					if r.Chance(1, 6) {
 						tue = -sec / 2
 					}
-					recs = append(recs, item('g', t, vlib.Pick(r, smallTTL), tue))
+					recs = append(recs, item(sigKind(r), t, vlib.Pick(r, smallTTL), tue))
 				}
 			}
 			emit(fmt.Sprintf("ttl proof %d %s %s", maxTTL, cut, strings.Join(recs, ",")))
@@ -612,7 +624,7 @@ func (g *genHist) genSpec(name string, kind byte, tgt int, ecs bool) string {
 		add(st)
 		d := g.pickD(lim)
 		g.note(d)
-		ans = append(ans, item('g', st, d))
+		ans = append(ans, item(sigKind(r), st, d))
 	}
 	if soa != nil {
 		ns = append(ns, item('s', soa.ttl, soa.min))
@@ -628,7 +640,7 @@ func (g *genHist) genSpec(name string, kind byte, tgt int, ecs bool) string {
 		add(st)
 		d := g.pickD(lim)
 		g.note(d)
-		ns = append(ns, item('g', st, d))
+		ns = append(ns, item(sigKind(r), st, d))
 	}
 	lease := "-"
 	if r.Chance(3, 10) {
@@ -688,7 +700,7 @@ func (g *genHist) route() string {
 		// machinery; with prefetch on, the claims are compared on the decoded routes
 		return vlib.Pick(g.r, []string{"msg", "dwire"})
 	}
-	return vlib.Pick(g.r, []string{"msg", "dwire", "wire", "wire"})
+	return vlib.Pick(g.r, []string{"msg", "dwire", "wire", "wire", "lwire"})
 }
 
 func genHistCase(r *vlib.R, emitRaw func(string)) int {
